@@ -1151,6 +1151,7 @@ class Envelope:
                 self.state = ps.reshape(-1, 1)
                 self.fock.dimensions = new_dimensions
                 return True
+            return True
         if self.expansion_level == ExpansionLevel.Matrix:
             assert isinstance(self.state, jnp.ndarray)
             assert self.state.shape == (self.dimensions, self.dimensions)
